@@ -411,3 +411,29 @@ Definition l_counted (lo : lloc) : bool := match l_pc lo with LCounted => true |
 Definition l_created (lo : lloc) : bool := match l_pc lo with LDoneHeld | LCreated => true | _ => false end.
 Definition l_new (fault : bool) : lloc := {| l_pc := LNew; l_fault := fault |}.
 Definition lrun max (sh : lsh) (ts : list lloc) (sched : list nat) := run _ _ (lstep max) (sh, ts) sched.
+
+(* ------------------------------------------------------------------------------------------------
+   7. what the quota count counts: ConnectionCodeRepository.Create writes the by-id RECORD and then APPENDS the id to the
+      client's index; ListByTargetClient (run by any admission's count, by read-only queries, on any node) drops index entries
+      whose record is missing ("expired").  One step = one storage call.
+      RecordFirst = the code;  IndexFirst = the two writes swapped (NOT the code; refuted: a list between the writes drops the
+      entry of a code that is being created, which then exists uncounted). *)
+Inductive iorder := RecordFirst | IndexFirst.
+Inductive ipc :=
+| ICreate (id : N) (stage : nat)     (* stage 0: nothing written, 1: first write done, >= 2: Create has returned *)
+| IList (remaining : nat).           (* a caller that lists the client's codes `remaining` more times *)
+Record ish := { i_stored : list N; i_index : list N }.
+Definition imem (k : N) (l : list N) : bool := existsb (N.eqb k) l.
+Definition istep (ord : iorder) (pc : ipc) (sh : ish) : ipc * ish :=
+  let put_record id := {| i_stored := id :: i_stored sh; i_index := i_index sh |} in
+  let put_index id := {| i_stored := i_stored sh; i_index := id :: i_index sh |} in
+  match pc with
+  | ICreate id 0 => (ICreate id 1, match ord with RecordFirst => put_record id | IndexFirst => put_index id end)
+  | ICreate id 1 => (ICreate id 2, match ord with RecordFirst => put_index id | IndexFirst => put_record id end)
+  | ICreate id _ => (pc, sh)
+  | IList (S n) => (IList n, {| i_stored := i_stored sh; i_index := filter (fun k => imem k (i_stored sh)) (i_index sh) |})
+  | IList 0 => (pc, sh)
+  end.
+Definition irun ord (sh : ish) (ts : list ipc) (sched : list nat) := run _ _ (istep ord) (sh, ts) sched.
+(* the count the quota compares with its limit: index entries whose record exists *)
+Definition i_counted (sh : ish) : nat := length (filter (fun k => imem k (i_stored sh)) (i_index sh)).
